@@ -1,7 +1,7 @@
 (* C07/Properties.v — property theorems only.  Model: C07/Model.v (the code after fix commits
    e89b171, 07b228c; with the known finding F-C07a, whose fix 311264d was reverted by 0819a3f). *)
 From Coq Require Import String Lia.
-From RM Require Import C06.Model C06.Proofs C06.Proofs5 C06.Driver C07.Model C07.Proofs C07.Proofs2 C07.Proofs3 C07.Proofs4 C07.Text C07.Proofs5 C07.Walker C07.Proofs6 C07.Proofs7 C07.Proofs11 C07.Proofs13 C07.Proofs8 C07.Proofs9 C07.Proofs10 C07.Proofs12 Gen.C07WinEval C07.Source C07.Proofs14 C07.Proofs15 C07.Proofs16 Gen.C07WinLine C07.Proofs17.
+From RM Require Import C06.Model C06.Proofs C06.Proofs5 C06.Driver C07.Model C07.Proofs C07.Proofs2 C07.Proofs3 C07.Proofs4 C07.Text C07.Proofs5 C07.Walker C07.Proofs6 C07.Proofs7 C07.Proofs11 C07.Proofs13 C07.Proofs8 C07.Proofs9 C07.Proofs10 C07.Proofs12 Gen.C07WinEval C07.Source C07.Proofs14 C07.Proofs15 C07.Proofs16 Gen.C07WinLine C07.Proofs17 C07.Proofs18.
 From RM Require C09.Grammar.
 From RM Require C08.Model C08.Proofs.
 Open Scope Z_scope.
@@ -642,3 +642,38 @@ Example c07_nonvacuous_preference :
   | _, _ => False
   end.
 Proof. vm_compute. split; reflexivity. Qed.
+
+(* The two frame-data programs MSVC emits for almost every function, for ALL environments, size fields and memory
+   contents (symbolic evaluation, not a run): (1) `$T0 .raSearch = $eip $T0 ^ = $esp $T0 4 + =` behaves like an FPO
+   record without base pointer and without the leftover-return-address skip — eip = *(esp + frame_size),
+   esp = esp + frame_size + 4, ebp and ebx are the callee's (they are predefined variables the program never
+   undefines), esi / edi unknown; (2) the module docs' worked example (standard ebp frame): eip = *(ebp + 4),
+   ebp = *(ebp), esp = ebp + 8.  All values 32-bit wrapped. *)
+Theorem c07_standard_programs :
+  (forall p E i esp ebp fs ra s',
+     e_callee E N_esp = Some esp -> e_callee E N_ebp = Some ebp -> win_frame_size i (e_gcps E) = Some fs ->
+     e_mem E (wrap32 esp + fs) = Some ra ->
+     walk_win_framedata (mock_ops 4) p E i prog_ra_search m_init = Ret (s', true) ->
+     m_regs s' N_eip = SetTo (wrap32 ra) /\ m_regs s' N_esp = SetTo (wrap32 (wrap32 esp + fs + 4)) /\
+     m_regs s' N_ebp = SetTo (wrap32 ebp) /\
+     m_regs s' N_ebx = match e_callee E N_ebx with Some b => SetTo (wrap32 b) | None => Unset end /\
+     m_regs s' N_esi = Unset /\ m_regs s' N_edi = Unset) /\
+  (forall p E i esp ebp ra old s',
+     e_callee E N_esp = Some esp -> e_callee E N_ebp = Some ebp ->
+     e_mem E (wrap32 (wrap32 ebp + 4)) = Some ra -> e_mem E (wrap32 ebp) = Some old ->
+     walk_win_framedata (mock_ops 4) p E i prog_ebp_frame m_init = Ret (s', true) ->
+     m_regs s' N_eip = SetTo (wrap32 ra) /\ m_regs s' N_esp = SetTo (wrap32 (wrap32 ebp + 8)) /\
+     m_regs s' N_ebp = SetTo (wrap32 old) /\
+     m_regs s' N_ebx = match e_callee E N_ebx with Some b => SetTo (wrap32 b) | None => Unset end /\
+     m_regs s' N_esi = Unset /\ m_regs s' N_edi = Unset).
+Proof. exact (conj ra_search_regs ebp_frame_regs). Qed.
+Print Assumptions c07_standard_programs.
+
+Example c07_nonvacuous_standard_program :
+  (* frame size 4 + 4 + 4, return address 0x40001000 at esp + 12 *)
+  let E := mkEnv (fun n => assoc n [(N_esp, 16); (N_ebp, 55); (N_ebx, 9)])
+                 (mem_read 4 16 [1;0;0;0; 2;0;0;0; 3;0;0;0; 0;16;0;64; 5;0;0;0]) 100 true 4 in
+  let i := mkWin 100 16 0 0 8 4 4 0 (ProgramString prog_ra_search) in
+  e_mem E (wrap32 16 + 12) = Some 1073745920 /\ win_frame_size i (e_gcps E) = Some 12 /\
+  exists s', walk_win_framedata (mock_ops 4) Debug E i prog_ra_search m_init = Ret (s', true).
+Proof. split; [reflexivity|]. split; [reflexivity|]. eexists. vm_compute. reflexivity. Qed.
